@@ -1,9 +1,133 @@
 import OdcGeo.Model.C14
+import OdcGeo.Spec.ConvexDisjoint
 namespace OdcGeo.C14.Drv
-open OdcGeo OdcGeo.IO
+open OdcGeo OdcGeo.IO OdcGeo.C14
+
+/-- `E` exact arithmetic, `F` binary64 rounding after every operation -/
+def parseMode? (s : String) : Option Rnd :=
+  if s = "E" then some id else if s = "F" then some fl64 else none
+
+def fmtBin (b : Bin1D) : String := s!"{fmtRat b.sz} {fmtRat b.origin} {b.dir}"
+
+/-- public attributes only: `tile_shape`, `resolution`, `origin`, `tile_size` (index directions are
+    observed through `pt` / `tile`) -/
+def fmtGrid (g : GridSpec) : String :=
+  s!"{g.ny} {g.nx} {fmtRat g.rx} {fmtRat g.ry} {fmtRat g.ox} {fmtRat g.oy} {fmtRat g.xbin.sz} {fmtRat g.ybin.sz}"
+
+def fmtBBox (b : BBox) : String :=
+  s!"{fmtRat b.left} {fmtRat b.bottom} {fmtRat b.right} {fmtRat b.top}"
+
+def fmtIdx (k : Int × Int) : String := s!"{k.1};{k.2}"
+
+def parsePt? (s : String) : Option (Rat × Rat) :=
+  match s.splitOn ";" with
+  | [x, y] => do let x ← parseRat? x; let y ← parseRat? y; pure (x, y)
+  | _ => none
+
+def parseGrid? (fl : Rnd) (ny nx rx ry ox oy fx fy : String) : Option (Res GridSpec) := do
+  let ny ← parseInt? ny; let nx ← parseInt? nx
+  let rx ← parseRat? rx; let ry ← parseRat? ry
+  let ox ← parseRat? ox; let oy ← parseRat? oy
+  let fx ← parseBool? fx; let fy ← parseBool? fy
+  pure (GridSpec.new fl ny nx rx ry ox oy fx fy)
+
+def parseBBox? (l b r t : String) : Option BBox := do
+  let l ← parseRat? l; let b ← parseRat? b; let r ← parseRat? r; let t ← parseRat? t
+  pure ⟨l, b, r, t⟩
+
+def ptsBounds (ps : List (Rat × Rat)) : Option BBox :=
+  match ps with
+  | [] => none
+  | p :: rest => some ⟨rest.foldl (fun m q => min m q.1) p.1, rest.foldl (fun m q => min m q.2) p.2,
+                       rest.foldl (fun m q => max m q.1) p.1, rest.foldl (fun m q => max m q.2) p.2⟩
+
+def probe (fl : Rnd) (px py : Rat) (kx ky : Int) (g : GridSpec) : String :=
+  s!"{fmtGrid g} {fmtIdx (g.pt2idx fl px py)} {fmtBBox ((g.tileGeobox fl (kx, ky)).bbox fl)}"
+
+def withGrid (g : Res GridSpec) (f : GridSpec → String) : String :=
+  match g with
+  | .ok g => f g
+  | .error e => e.toStr
 
 def run (args : List String) : Option String :=
   match args with
+  -- spec validation of the binary64 rounding
+  | ["fl", q] => do
+    let q ← parseRat? q
+    pure (fmtRat (fl64 q))
+  | ["bin", m, sz, o, d, x] => do
+    let fl ← parseMode? m; let sz ← parseRat? sz; let o ← parseRat? o; let d ← parseInt? d
+    let x ← parseRat? x
+    pure (fmtRes (fun b => fmtInt (b.bin fl x)) (Bin1D.new sz o d))
+  | ["item", m, sz, o, d, k] => do
+    let fl ← parseMode? m; let sz ← parseRat? sz; let o ← parseRat? o; let d ← parseInt? d
+    let k ← parseInt? k
+    pure (fmtRes (fun b => s!"{fmtRat (b.lo fl k)} {fmtRat (b.hi fl k)}") (Bin1D.new sz o d))
+  | ["fsb", m, idx, x0, x1, d] => do
+    let fl ← parseMode? m; let idx ← parseInt? idx; let x0 ← parseRat? x0; let x1 ← parseRat? x1
+    let d ← parseInt? d
+    pure (fmtRes fmtBin (Bin1D.fromSampleBin fl idx x0 x1 d))
+  | ["grid", m, ny, nx, rx, ry, ox, oy, fx, fy] => do
+    let fl ← parseMode? m
+    let g ← parseGrid? fl ny nx rx ry ox oy fx fy
+    pure (fmtRes fmtGrid g)
+  | ["pt", m, ny, nx, rx, ry, ox, oy, fx, fy, x, y] => do
+    let fl ← parseMode? m
+    let g ← parseGrid? fl ny nx rx ry ox oy fx fy
+    let x ← parseRat? x; let y ← parseRat? y
+    pure (withGrid g fun g => fmtIdx (g.pt2idx fl x y))
+  | ["tile", m, ny, nx, rx, ry, ox, oy, fx, fy, ix, iy] => do
+    let fl ← parseMode? m
+    let g ← parseGrid? fl ny nx rx ry ox oy fx fy
+    let ix ← parseInt? ix; let iy ← parseInt? iy
+    pure (withGrid g fun g =>
+      let gb := g.tileGeobox fl (ix, iy)
+      s!"{gb.ny} {gb.nx} {fmtAff gb.aff} {fmtBBox (gb.bbox fl)} {fmtList (fun (p : Rat × Rat) => s!"{fmtRat p.1};{fmtRat p.2}") (gb.extentPts fl)}")
+  | ["idxb", m, ny, nx, rx, ry, ox, oy, fx, fy, l, b, r, t] => do
+    let fl ← parseMode? m
+    let g ← parseGrid? fl ny nx rx ry ox oy fx fy
+    let q ← parseBBox? l b r t
+    pure (withGrid g fun g =>
+      let (a, b, c, d) := g.idxBounds fl tol8 q
+      s!"{a} {b} {c} {d}")
+  | ["tiles", m, ny, nx, rx, ry, ox, oy, fx, fy, l, b, r, t] => do
+    let fl ← parseMode? m
+    let g ← parseGrid? fl ny nx rx ry ox oy fx fy
+    let q ← parseBBox? l b r t
+    pure (withGrid g fun g => fmtList fmtIdx (g.tiles fl tol8 q))
+  -- convex polygon query; `disjoint` := separating-axis test (Spec/ConvexDisjoint)
+  | ["poly", m, ny, nx, rx, ry, ox, oy, fx, fy, pts] => do
+    let fl ← parseMode? m
+    let g ← parseGrid? fl ny nx rx ry ox oy fx fy
+    let ps ← parseList? parsePt? pts
+    let q ← ptsBounds ps
+    pure (withGrid g fun g =>
+      fmtList fmtIdx (g.tilesFromPolygon fl tol8 q
+        (fun gb => Spec.Convex.disjoint ps (gb.extentPts fl))))
+  -- grid from a sample tile, observed through its public fields, a point lookup and one tile
+  | ["fst", m, l, b, r, t, ny, nx, ix, iy, fx, fy, px, py, kx, ky] => do
+    let fl ← parseMode? m
+    let q ← parseBBox? l b r t
+    let ny ← parseInt? ny; let nx ← parseInt? nx; let ix ← parseInt? ix; let iy ← parseInt? iy
+    let fx ← parseBool? fx; let fy ← parseBool? fy
+    let px ← parseRat? px; let py ← parseRat? py; let kx ← parseInt? kx; let ky ← parseInt? ky
+    pure (fmtRes (probe fl px py kx ky) (GridSpec.fromSampleTile fl q ny nx ix iy fx fy))
+  -- grid rebuilt from tile (jx,jy) of G, footprint of tile (kx,ky) in it
+  | ["fstrt", m, ny, nx, rx, ry, ox, oy, fx, fy, jx, jy, kx, ky] => do
+    let fl ← parseMode? m
+    let g ← parseGrid? fl ny nx rx ry ox oy fx fy
+    let ny' ← parseInt? ny; let nx' ← parseInt? nx
+    let fx' ← parseBool? fx; let fy' ← parseBool? fy
+    let jx ← parseInt? jx; let jy ← parseInt? jy; let kx ← parseInt? kx; let ky ← parseInt? ky
+    pure (withGrid g fun g =>
+      let q := (g.tileGeobox fl (jx, jy)).bbox fl
+      fmtRes (fun g2 => fmtBBox ((g2.tileGeobox fl (kx, ky)).bbox fl))
+        (GridSpec.fromSampleTile fl q ny' nx' jx jy fx' fy'))
+  | ["web", m, P, z, npix, px, py, kx, ky] => do
+    let fl ← parseMode? m
+    let P ← parseRat? P; let z ← parseInt? z; let npix ← parseInt? npix
+    let px ← parseRat? px; let py ← parseRat? py; let kx ← parseInt? kx; let ky ← parseInt? ky
+    pure (fmtRes (probe fl px py kx ky) (GridSpec.webTiles fl P z npix))
   | _ => none
 
 end OdcGeo.C14.Drv
